@@ -336,6 +336,24 @@ func FactsAt(info *types.Info, body *ast.BlockStmt, target ast.Node) *Facts {
 							}
 						}
 					}
+					if sw.Tag != nil {
+						// tagged switch: `switch t { case a: … }` is `if t == a { … }`; the clauses this one
+						// comes after (all of them, for default) did not match
+						if len(p.List) == 1 {
+							c.assume(&ast.BinaryExpr{X: sw.Tag, Op: token.EQL, Y: p.List[0]}, true, p.Pos())
+						}
+						for _, cl := range sw.Body.List {
+							if cl == ast.Stmt(p) {
+								if p.List != nil {
+									break
+								}
+								continue
+							}
+							for _, ce := range cl.(*ast.CaseClause).List {
+								c.assume(&ast.BinaryExpr{X: sw.Tag, Op: token.EQL, Y: ce}, false, p.Pos())
+							}
+						}
+					}
 				}
 			}
 		case *ast.CommClause:
